@@ -28,6 +28,7 @@ import dataclasses
 import enum
 import functools
 import inspect
+import logging
 import struct
 from collections.abc import Awaitable, Callable, Sequence
 from typing import (
@@ -44,6 +45,11 @@ from bumble import hci, l2cap, utils
 from bumble.colors import color
 from bumble.core import UUID, InvalidOperationError, InvalidPacketError, ProtocolError
 from bumble.hci import HCI_Object
+
+# -----------------------------------------------------------------------------
+# Logging
+# -----------------------------------------------------------------------------
+logger = logging.getLogger(__name__)
 
 # -----------------------------------------------------------------------------
 # Typing
@@ -1009,6 +1015,12 @@ class Attribute(utils.EventEmitter, Generic[_T]):
                     raise ATT_Error(
                         error_code=error.error_code, att_handle=self.handle
                     ) from error
+                except Exception as error:
+                    # The request must still be answered
+                    logger.exception('!!! exception in attribute value accessor')
+                    raise ATT_Error(
+                        error_code=ATT_UNLIKELY_ERROR_ERROR, att_handle=self.handle
+                    ) from error
             case AttributeValueV2():
                 try:
                     read_value = self.value.read(bearer)
@@ -1019,6 +1031,12 @@ class Attribute(utils.EventEmitter, Generic[_T]):
                 except ATT_Error as error:
                     raise ATT_Error(
                         error_code=error.error_code, att_handle=self.handle
+                    ) from error
+                except Exception as error:
+                    # The request must still be answered
+                    logger.exception('!!! exception in attribute value accessor')
+                    raise ATT_Error(
+                        error_code=ATT_UNLIKELY_ERROR_ERROR, att_handle=self.handle
                     ) from error
             case _:
                 value = self.value
@@ -1063,6 +1081,12 @@ class Attribute(utils.EventEmitter, Generic[_T]):
                     raise ATT_Error(
                         error_code=error.error_code, att_handle=self.handle
                     ) from error
+                except Exception as error:
+                    # The request must still be answered
+                    logger.exception('!!! exception in attribute value accessor')
+                    raise ATT_Error(
+                        error_code=ATT_UNLIKELY_ERROR_ERROR, att_handle=self.handle
+                    ) from error
             case AttributeValueV2():
                 try:
                     result = self.value.write(bearer, decoded_value)
@@ -1071,6 +1095,12 @@ class Attribute(utils.EventEmitter, Generic[_T]):
                 except ATT_Error as error:
                     raise ATT_Error(
                         error_code=error.error_code, att_handle=self.handle
+                    ) from error
+                except Exception as error:
+                    # The request must still be answered
+                    logger.exception('!!! exception in attribute value accessor')
+                    raise ATT_Error(
+                        error_code=ATT_UNLIKELY_ERROR_ERROR, att_handle=self.handle
                     ) from error
             case _:
                 self.value = decoded_value
